@@ -47,6 +47,9 @@ pub fn record_c20(out: &str, seed: u64, n: usize, c02_cases: &str) {
         "/re.x/$match-case", "|http://", "|https://", "|ws://", "|ws://$~websocket", "|http://$websocket", "|https://$image", "*$image", "*$third-party,script",
         "/a$b$script", "/banner$domain=ads.example|~cdn.example/track.js$script,domain=news.example", "a$domain=x.com,image", "/a.b?c=d&e+f(g)[h]{i}|j\\k^l",
         "/реклама/banner.gif", "||пример.рф^", "-баннер-$image,third-party", "||x.com^$tag=t", "||x.com*y^", "||x.com^*/ads", "||*.x.com^", "||x.com:8080/a",
+        // regex metacharacters inside the ||host part (the parser keeps whatever precedes the first '/', '^' or '*')
+        "||a+b.example.com/x", "||ads{n}.example.com^", "||a(b.example.com^", "||cdn$1.example.com^$script", "||a[b].example.com^", "||a?b.example.com^$image",
+        "||a|b.example.com^", "||a\\b.example.com^",
         "example.com##.ad", "example.com,~sub.example.com##.ad", "~example.com##.ad", "example.*##.ad", "~example.*##.ad", "example.com,example.*##.ad",
         "example.com#@#.ad", "##.generic", "###id", "example.com##.s:style(color: red)", "example.com##+js(sc)", "пример.рф##.x", "example.com##.реклама",
         "bücher.example##.x", "example.com,/regex/##.x", "example.com##.a:has-text(x)", "example.com#?#.a:-abp-has(.b)",
